@@ -105,6 +105,38 @@ impl Node {
         }
     }
 
+    /// A node bootstrapped from a custom genesis (per-run swarm configuration), then all protocol
+    /// updates up to the latest, by the real protocol executor.
+    pub fn from_genesis(settings: BabylonSettings) -> Self {
+        struct Hooks {
+            events: Vec<Events>,
+        }
+        impl ProtocolUpdateExecutionHooks for Hooks {
+            fn on_transaction_executed(&mut self, event: OnProtocolTransactionExecuted) {
+                let OnProtocolTransactionExecuted { receipt, .. } = event;
+                self.events
+                    .push(receipt.expect_commit_success().application_events.clone());
+            }
+        }
+        let mut db = InMemorySubstateDatabase::standard();
+        let mut hooks = Hooks { events: vec![] };
+        let vm = VmModules::default();
+        ProtocolBuilder::for_simulator()
+            .configure_babylon(|_| settings)
+            .from_bootstrap_to_latest()
+            .commit_each_protocol_update_advanced(&mut db, &mut hooks, &vm);
+        let validator = TransactionValidator::new(&db, &network());
+        Node {
+            db,
+            vm,
+            validator,
+            events: hooks.events,
+            nonce: 1000,
+            free_credit_used: false,
+            commits: 0,
+        }
+    }
+
     /// F8 restart: every in-memory component is dropped and rebuilt from the store.
     pub fn restart(&mut self) {
         self.vm = VmModules::default();
